@@ -5,14 +5,15 @@ through the mxvm executor; op generator; observation; Coq case emission.
 Ids used by the model (coq/Model/Router.v):
   accounts  0 = router, 100 = router owner, 1..NUSERS = users, 5 = the pair template (a non-pair address),
             10.. = pair contracts (one fresh id per createPair / direct deployment attempt)
-  tokens    1..NTOK = pool tokens, 0 = a malformed token identifier
+  tokens    1..NTOK = pool tokens, 0 = a malformed token identifier, 8/9 = locked (meta-ESDT) tokens
 A `Direct` op wraps one pair-model op (coq/Model/Pair.v) with the pair's local token codes 1/2.
 """
 import random
 from vmx import *
 
 NTOK = 4
-T = {1: b"AAA-abcdef", 2: b"BBB-abcdef", 3: b"CCC-abcdef", 4: b"DDD-abcdef", 0: b"bad"}
+T = {1: b"AAA-abcdef", 2: b"BBB-abcdef", 3: b"CCC-abcdef", 4: b"DDD-abcdef", 0: b"bad",
+     8: b"LOCKED-abcdef", 9: b"LKTWO-abcdef"}        # 8, 9: meta-ESDTs carrying LockedTokenAttributes
 NUSERS = 3
 ROUTER, OWNER, TEMPLATE = 0, 100, 5
 BIG = 10 ** 40
@@ -51,6 +52,9 @@ class RouterWorld:
         self.adders = {}        # generator memory: pair id -> initial liquidity adder
         self.creators = {}      # generator memory: pair id -> (creator, creation block)
         self.feedests = {}      # generator memory: pair id -> [(destination, token)] set through the router
+        self.common = []        # generator memory: whitelisted common tokens
+        self.enable_cfg = {}    # generator memory: common token -> (locked token, min value, min epochs)
+        self.epoch = 1
         self.last = self.observe_state()
 
     def close(self):
@@ -98,7 +102,7 @@ class RouterWorld:
                  all=[self.ids.get(x, -1) for x in al.out],
                  led={(a, t): vm.bal(self.addr[a], T[t]) for a in LEDGER_ACCOUNTS for t in range(1, NTOK + 1)},
                  pairs={pid: self.observe_pair(pid) for pid in self.pairs},
-                 block=self.block)
+                 block=self.block, epoch=self.epoch)
         return o
 
     def digest(self):
@@ -114,6 +118,10 @@ class RouterWorld:
         if k == "SetBlock":
             self.block = op[1]
             vm.block(nonce=self.block, round_=self.block, ts=6 * self.block)
+            r = Result(0, "", [])
+        elif k == "SetEpoch":
+            self.epoch = op[1]
+            vm.block(epoch=self.epoch)
             r = Result(0, "", [])
         else:
             pre_dig = self.digest()
@@ -230,18 +238,46 @@ class RouterWorld:
         elif k == "DonateRouter":
             _, c, tok, amt = op
             r = vm.transfer(A[c], R, [(T[tok], 0, amt)])
-        elif k == "SetBlock":
+        elif k == "AddCommon":
+            _, c, tok = op
+            r = vm.call(A[c], R, "addCommonTokensForUserPairs", [T[tok]])
+            if r.ok and tok not in self.common:
+                self.common.append(tok)
+        elif k == "RemoveCommon":
+            _, c, tok = op
+            r = vm.call(A[c], R, "removeCommonTokensForUserPairs", [T[tok]])
+            if r.ok and tok in self.common:
+                self.common.remove(tok)
+        elif k == "ConfigEnable":
+            _, c, common, locked, minval, minep = op
+            r = vm.call(A[c], R, "configEnableByUserParameters", [T[common], T[locked], top_u(minval), top_u(minep)])
+            if r.ok:
+                self.enable_cfg[common] = (locked, minval, minep)
+        elif k == "EnableSwap":
+            _, c, ad, ltok, orig, unlock, amt = op
+            if ltok >= 8:
+                # a locked position as simple-lock would have minted it: LockedTokenAttributes{original LP token, 0, unlock epoch}
+                attrs = nest_bytes(lp_token(orig) if orig else b"OTHER-abcdef") + nest_u64(0) + nest_u64(unlock)
+                vm.setbal(A[c], T[ltok], 1, amt, attrs)
+                pay = (T[ltok], 1, amt)
+            else:
+                pay = (T[ltok], 0, amt)
+            r = vm.call(A[c], R, "setSwapEnabledByUser", [A[ad]], [pay])
+            o_locked = [vm.bal(R, T[8], 1), vm.bal(R, T[9], 1)]
+        elif k in ("SetBlock", "SetEpoch"):
             pass
         else:
             raise ValueError(k)
         o = self.observe_state()
+        if k == "EnableSwap":
+            o["router_locked"] = o_locked
         o["ok"] = r.ok
         o["msg"] = r.msg
         o["outs"] = outs
         if not r.ok:
             o["unchanged"] = (self.digest() == pre_dig) and all(o["led"][x] == self.last["led"][x] for x in o["led"])
         o["pre"] = self.last
-        self.last = {k_: o[k_] for k_ in ("active", "creation", "getpair", "all", "led", "pairs", "block")}
+        self.last = {k_: o[k_] for k_ in ("active", "creation", "getpair", "all", "led", "pairs", "block", "epoch")}
         return o
 
 
@@ -320,7 +356,8 @@ def log_amount(rng, hi=10 ** 30):
 # ------------------------------------------------------------------ generation
 def gen_cfg(rng):
     return dict(block=rng.choice([1, 1, 7, 1000]), style=rng.choice(["owner", "owner", "public", "mixed"]),
-                target=rng.choice([2, 3, 3, 4]), twin=rng.random() < 0.6)
+                target=rng.choice([2, 3, 3, 4]), twin=rng.random() < 0.6,
+                enable=rng.random() < 0.55)
 
 
 def registered_ids(s):
@@ -379,7 +416,45 @@ def gen_create(rng, w, s, want_valid):
     else:
         fees = rng.choice([None, None, None, [1, 1]])
     adder = 0 if rng.random() < 0.8 else rng.choice(users)
+    if w.cfg.get("enable") and w.enable_cfg and want_valid and rng.random() < 0.6:
+        withc = [(x, y) for (x, y) in free if x in w.enable_cfg or y in w.enable_cfg]
+        if withc:
+            a, b = rng.choice(withc)
+            adder = c if c != OWNER else rng.choice(users)
     return ["CreatePair", c, a, b, adder, fees, na]
+
+
+def gen_enable(rng, w, s, pid, valid):
+    """setSwapEnabledByUser on pair `pid`: aimed at success when `valid`, else one argument off"""
+    users = list(range(1, NUSERS + 1))
+    p = s["pairs"][pid]
+    adder = w.adders.get(pid)
+    common = next((t for t in (p["t1"], p["t2"]) if t in w.common), None)
+    cfg = w.enable_cfg.get(common) if common else None
+    ltok, minval, minep = cfg if cfg else (8, 1, 0)
+    rsv = p["r1"] if common == p["t1"] else p["r2"]
+    S = max(1, p["S"])
+    need = max(1, (minval * S + rsv - 1) // rsv) if rsv > 0 else S
+    amt = need + rng.choice([0, 0, 1, need, S])
+    unlock = s["epoch"] + minep + rng.choice([0, 0, 1, 5, 100])
+    c = adder or rng.choice(users)
+    op = ["EnableSwap", c, pid, ltok, pid, unlock, amt]
+    if not valid:
+        kind = rng.randrange(6)
+        if kind == 0:
+            op[1] = rng.choice([u for u in users + [OWNER] if u != c])
+        elif kind == 1:
+            op[3] = rng.choice([9, 9, 1, 2]) if ltok == 8 else 8
+        elif kind == 2:
+            op[4] = rng.choice([0] + [q for q in s["pairs"] if q != pid])
+        elif kind == 3:
+            op[5] = max(0, s["epoch"] + minep - rng.choice([1, 1, 2, minep + 5]))
+        elif kind == 4:
+            op[6] = max(0, need - rng.choice([1, 1, 2, need]))
+        else:
+            others = [q for q in s["pairs"] if q != pid]
+            op[2] = rng.choice(others + [TEMPLATE, c]) if others else TEMPLATE
+    return op
 
 
 def bootstrap_step(rng, w, s, pid):
@@ -388,10 +463,15 @@ def bootstrap_step(rng, w, s, pid):
     reg = pid in registered_ids(s)
     users = list(range(1, NUSERS + 1))
     if p["lp"] == 0:
-        if reg and pid in w.creators and rng.random() < 0.22:
+        if reg and pid in w.creators:
             cr, blk = w.creators[pid]
-            who = cr if rng.random() < 0.7 else rng.choice(users + [OWNER])
-            return ["IssueLp", who, pid]
+            r = rng.random()
+            tgt = blk + rng.choice([TEMP_PERIOD - 1, TEMP_PERIOD, TEMP_PERIOD, TEMP_PERIOD + 1])
+            if r < 0.12 and tgt > s["block"]:
+                return ["SetBlock", tgt]
+            if r < 0.36:
+                who = cr if rng.random() < 0.55 else rng.choice(users + [OWNER])
+                return ["IssueLp", who, pid]
         return ["SetLp", OWNER, pid]
     if p["S"] == 0:
         a1 = rng.randint(1, 9) * 10 ** rng.choice([4, 5, 6, 8, 10, 12, 15, 18]) + rng.randint(1001, 3000)
@@ -409,6 +489,10 @@ def bootstrap_step(rng, w, s, pid):
             return ["Direct", pid, ["SetState", OWNER, 1]]
         return ["Direct", pid, ["Add", rng.choice(users + [OWNER]), a1, a2, 1, 1]]
     if p["state"] != 1:
+        if p["state"] == 2 and w.adders.get(pid) and w.enable_cfg and rng.random() < 0.85:
+            if reg and rng.random() < 0.1:
+                return ["RemovePair", OWNER, p["t1"], p["t2"]]      # the adder's pair is delisted before it opens
+            return gen_enable(rng, w, s, pid, rng.random() < 0.7)
         if reg and rng.random() < 0.8:
             return ["Resume", OWNER, pid]
         return ["Direct", pid, ["SetState", OWNER, 1]]
@@ -547,10 +631,40 @@ def gen_op(rng, w, stats):
     foreign_pairs = [pid for pid in pairs if pid not in reg]
     nonpair = users + [TEMPLATE, OWNER]
     roll = rng.random()
-    if not s["active"] and rng.random() < 0.6:
-        return ["Resume", OWNER, ROUTER]
+    if not s["active"]:
+        # router paused: resume it, or try the endpoints that must (not) care about the router's own state
+        pr = rng.random()
+        if pr < 0.45:
+            return ["Resume", OWNER, ROUTER]
+        taken = [(a, b) for (a, b), v in s["getpair"].items() if v != 0]
+        if pr < 0.53:
+            return gen_create(rng, w, s, True)
+        if pr < 0.60 and taken:
+            a, b = rng.choice(taken)
+            return [rng.choice(["RemovePair", "UpgradePair"]), OWNER, a, b]
+        if pr < 0.72 and reg:
+            return [rng.choice(["Pause", "Resume"]), OWNER, rng.choice(reg)]
+        if pr < 0.80 and reg:
+            ad = rng.choice(reg)
+            return ["RSetFeeOn", OWNER, ad, rng.choice(users), pairs[ad]["t1"]]
+        if pr < 0.86 and reg:
+            return [rng.choice(["SetLocalRoles", "IssueLp"]), OWNER, rng.choice(reg)]
+        if pr < 0.95 and good:
+            return gen_multiswap(rng, w, s)
+        return ["SetCreation", OWNER, rng.random() < 0.5]
+    if rng.random() < 0.02:
+        return ["Pause", OWNER, ROUTER]
     if w.cfg["style"] != "owner" and not s["creation"] and rng.random() < 0.25:
         return ["SetCreation", OWNER, True]
+    if w.cfg.get("enable") and rng.random() < 0.5:
+        if not w.common:
+            return ["AddCommon", OWNER, rng.randint(1, NTOK)]
+        if not w.enable_cfg:
+            return ["ConfigEnable", OWNER, rng.choice(w.common), 8, rng.choice([1, 1000, 100000, 10 ** 7]), rng.choice([0, 0, 10, 100])]
+    # pairs waiting in ActiveNoSwaps for their adder, registered or not (removed ones must be refused)
+    waiting = [pid for pid in pairs if pairs[pid]["state"] == 2 and w.adders.get(pid) and pid not in reg]
+    if waiting and w.enable_cfg and rng.random() < 0.3:
+        return gen_enable(rng, w, s, rng.choice(waiting), rng.random() < 0.8)
     # bootstrap: enough live registered pairs
     if len(good) < w.cfg["target"] and rng.random() < 0.93:
         pending = [pid for pid in reg if not live(pairs[pid])]
@@ -631,6 +745,11 @@ def gen_op(rng, w, stats):
         a, b = rng.choice(taken) if taken and rng.random() < 0.8 else rng.sample(range(1, NTOK + 1), 2)
         return ["UpgradePair", rng.choice([OWNER] * 4 + users), a, b]
     if roll < 0.83:
+        nolp = [pid for pid in reg if pairs[pid]["lp"] == 0 and pid in w.creators]
+        if nolp and rng.random() < 0.7:
+            tgt = w.creators[rng.choice(nolp)][1] + rng.choice([TEMP_PERIOD - 1, TEMP_PERIOD, TEMP_PERIOD, TEMP_PERIOD + 1])
+            if tgt > s["block"]:
+                return ["SetBlock", tgt]
         return ["SetBlock", s["block"] + rng.choice([1, 1, 5, 49, 50, 51, 1000])]
     if roll < 0.86:
         return ["DonateRouter", rng.choice(users + [OWNER]), rng.randint(1, NTOK), log_amount(rng, 10 ** 12)]
@@ -639,6 +758,21 @@ def gen_op(rng, w, stats):
         ad = rng.choice(nolp) if nolp and rng.random() < 0.7 else (rng.choice(list(pairs)) if pairs else None)
         if ad is not None:
             return ["SetLp", rng.choice([OWNER] * 5 + users), ad]
+    if roll < 0.915:
+        er = rng.random()
+        if er < 0.25:
+            return ["AddCommon", rng.choice([OWNER] * 4 + users), rng.randint(0, NTOK)]
+        if er < 0.35:
+            return ["RemoveCommon", rng.choice([OWNER] * 4 + users), rng.randint(1, NTOK)]
+        if er < 0.55:
+            cm = rng.choice(w.common) if w.common and rng.random() < 0.8 else rng.randint(1, NTOK)
+            return ["ConfigEnable", rng.choice([OWNER] * 4 + users), cm, rng.choice([8, 8, 9]),
+                    rng.choice([1, 1000, 100000, 10 ** 7]), rng.choice([0, 0, 10, 100])]
+        if er < 0.7:
+            return ["SetEpoch", s["epoch"] + rng.choice([1, 1, 9, 10, 99, 100])]
+        cand = [pid for pid in pairs if pairs[pid]["state"] == 2] or list(pairs)
+        if cand:
+            return gen_enable(rng, w, s, rng.choice(cand), rng.random() < 0.5)
     # direct pair traffic by users
     livep = [pid for pid in pairs if live(pairs[pid])]
     if livep:
